@@ -27,7 +27,7 @@ type Index struct {
 	// insideCRLF[i]: offset i lies between the CR and the LF of a CRLF pair.
 	insideCRLF []bool
 
-	LoneCR      bool // some CR is not followed by LF (positions Unspecified)
+	LoneCR      bool // some CR is not followed by LF (positions Unspecified for RangeScanner/JSON; see Native* for the native syntax)
 	ValidUTF8   bool
 	LeadingBOM  bool
 	AsciiJoined bool // some cluster longer than one byte starts with an ASCII byte other than CR of CRLF
@@ -150,6 +150,28 @@ func (ix *Index) Col(i int) int { return ix.col[i] }
 func (ix *Index) ColDefined(i int) bool {
 	return !ix.LoneCR && ix.boundary[i] && !ix.ambiguous[i]
 }
+
+// ---- native syntax reading of a lone CR ----
+//
+// hclsyntax/spec.md defines a newline sequence as "either U+000A or U+000D
+// followed by U+000A". For the native syntax a CR that is not followed by LF
+// is therefore *not* a newline; UAX #29 (GB4/GB5) makes it a grapheme cluster
+// of its own, so it is one column and stays on its line. That is exactly what
+// segment() computes, hence the line/col arrays are already the native-syntax
+// reference for buffers with lone CRs: the two predicates below are the
+// *Defined predicates without the LoneCR exemption (which remains for
+// hcl.RangeScanner and the JSON scanner, whose documents do not say what a
+// lone CR is).
+
+// NativeLineDefined reports whether the line of offset i is demanded of the
+// native syntax scanner/parser (every offset that is not between the CR and
+// the LF of a CRLF pair).
+func (ix *Index) NativeLineDefined(i int) bool { return !ix.insideCRLF[i] }
+
+// NativeColDefined reports whether offset i is a cluster boundary whose column
+// does not depend on how ill-formed UTF-8 is read; a lone CR before i counts
+// as one cluster.
+func (ix *Index) NativeColDefined(i int) bool { return ix.boundary[i] && !ix.ambiguous[i] }
 
 // Boundary reports whether offset i is a grapheme-cluster boundary.
 func (ix *Index) Boundary(i int) bool { return ix.boundary[i] }
